@@ -198,17 +198,28 @@ def rule_exact(E, R):
         gets = [c for c in exprs(h["body"], "MethodCall") if _reg_field(c["recv"]) == "items" and strip(c["recv"]).get("k") == "Field"]
         ok = len(gets) == 1 and gets[0]["m"] == "get" and is_param(gets[0]["args"][0], h, 1)
         R.check(ok, rule, fn, "identifiers are resolved by one HashMap::get with the complete name", where=h["span"])
+        S = sem.Sem(E, h, inline=False)
         tbl = {}
-        for m in exprs(h["body"], "Match"):
-            for a in m["arms"]:
-                v = pat_variant(a["pat"])
-                if v and "SchemeItem::" in v:
-                    built = [last_seg(norm(c.get("callee", ""))) for c in exprs(a["body"], "Call") if "Identifier::" in norm(c.get("callee", ""))]
-                    lits = [last_seg(norm(s["res"].get("path", ""))) for s in exprs(a["body"], "Struct")]
-                    idx = [local_name(f["e"]) for s in exprs(a["body"], "Struct") for f in s["fields"] if f["name"] == "index"]
-                    tbl[last_seg(v)] = (built, lits, idx, pat_bindings(a["pat"]))
-        ok = tbl.get("Field", ([], [], [], []))[0:2] == (["Field"], ["FieldRef"]) and tbl.get("Function", ([], [], [], []))[0:2] == (["Function"], ["FunctionRef"]) \
-            and all(v[2] == v[3] for v in tbl.values())
+        anyp = lambda v: True
+        for x in S.sites():
+            n_ = x.node
+            kind = None
+            if n_.get("k") == "Call" and n_.get("callee_kind", "").startswith("Ctor") and "Identifier::" in norm(n_.get("callee", "")):
+                kind = ("built", last_seg(norm(n_["callee"])))
+            elif n_.get("k") == "Struct" and last_seg(norm(n_["res"].get("path", ""))) in ("FieldRef", "FunctionRef"):
+                kind = ("lit", last_seg(norm(n_["res"]["path"])))
+            if not kind:
+                continue
+            vs = sem.nested_variants(x.pc, anyp, "SchemeItem") or {"?"}
+            for v in vs:
+                ent = tbl.setdefault(v, {"built": [], "lit": [], "idx_ok": True})
+                ent[kind[0]].append(kind[1])
+                if kind[0] == "lit":
+                    idx = [f["e"] for f in n_["fields"] if f["name"] == "index"]
+                    ent["idx_ok"] = ent["idx_ok"] and bool(idx) and _index_from_registry(h, idx[0])
+        ok = tbl.get("Field", {}).get("built") == ["Field"] and tbl.get("Field", {}).get("lit") == ["FieldRef"] and \
+            tbl.get("Function", {}).get("built") == ["Function"] and tbl.get("Function", {}).get("lit") == ["FunctionRef"] and \
+            set(tbl) == {"Field", "Function"} and all(v["idx_ok"] for v in tbl.values())
         R.check(ok, rule, fn, "a field entry yields a FieldRef and a function entry a FunctionRef, with the stored index", str(tbl), h["span"])
     # other readers of `items`
     for hb in E.hir_list:
@@ -292,6 +303,14 @@ def _index_from_registry(hb, e):
     body = hb["body"]
     for q in walk(body):
         if q.get("k") == "PTupleStruct" and "SchemeItem::" in norm(q["res"].get("path", "")) and nm in pat_bindings(q):
+            return True
+    # `let index = *self.inner.list_types.get(ty)?;`
+    ini = let_init(body, nm)
+    if ini is not None:
+        i_ = sem.peel(ini)
+        while i_.get("k") == "Unary" and i_.get("op") == "Deref":
+            i_ = sem.peel(i_["e"])
+        if i_.get("k") == "MethodCall" and i_["m"] == "get" and _reg_field(i_["recv"]):
             return True
     for c in exprs(body, "MethodCall"):
         if c["m"] != "map" or not c.get("args"):
